@@ -343,8 +343,42 @@ def modelled_members_and_casts():
     ]
 
 
+def tour():
+    """Corners of the language that the typed generator never reaches: type definitions (top level, nested, local), event
+    functions, trigger annotations, type imports from a host module, the builtins debug / fmt / assert / assert_eq,
+    matches over strings and bools, option and range members, non-ASCII strings."""
+    return [
+        'type P = { x: int, y: int };\nfn mk(a: int) -> P { new { x: a, y: a * 2 } }\nfn main() { let p: P = mk(3); println(p.x + p.y); let l: [P] = [mk(1), mk(2)]; for q in l { println(q.y); } println(l); }',
+        'type A = [int];\ntype B = { l: A, o: ?A };\nfn main() { let b: B = new { l: [1, 2], o: ?[3] }; println(b.l.len(), b.o.unwrap()[0]); let c: B = new { l: [4], o: none }; println(c); println(b == c); }',
+        'fn main() { type L = [str]; let l: L = ["a"]; l.push("b"); println(l.join("+")); }',
+        'pub type Id = int;\npub fn next(i: Id) -> Id { i + 1 }\nfn main() { let a: Id = 41; println(next(a)); }',
+        'event fn ev(a: int) { println("ev", a); }\nfn main() { println("m"); }',
+        'import { trigger minute } from triggers;\n#[trigger on minute(1)]\nevent fn cb(elapsed: int) { println("cb"); }\nfn main() { println("m"); }',
+        'import { type HttpResponse } from net;\nfn show(r: ?HttpResponse) -> str { if r.is_some() { r.unwrap().status } else { "nothing" } }\nfn main() { println(show(none)); println(show(?new { status: "OK", status_code: 200, body: "b", cookies: new { ? } })); }',
+        'import { templ FooFeature } from templates;\n$Lamp = { power: bool, lvl: int };\nimpl FooFeature with { light } for $Lamp {\n    fn dim(self: $Lamp, percent: int) -> bool { self.lvl = percent; percent > 50 }\n}\nfn main() { println($Lamp.lvl); println(dim(70)); println($Lamp.lvl); println(dim(10), $Lamp.lvl); }',
+        'fn main() { assert(true); println("ok"); assert(1 == 2); println("not reached"); }',
+        'fn main() { debug(1, "a", [1, 2], new { a: 1 }); println("after debug"); }',
+        'fn main() { println(fmt("%d and %s", 1, "x")); println(fmt("%v|%v", [1], 2.5)); }',
+        'import { assert_eq } from testing;\nfn main() { assert_eq(1, 1); println("eq"); assert_eq("a", "b"); println("nr"); }',
+        'fn main() { let s = "a\u00e9\u65e5"; println(s.len(), s[1], s.to_upper(), s.split("")); for c in s { print(c, "|"); } println(""); }',
+        'fn main() { let r = 5..=7; println(r, r.start, r.end, r.rev(), r.diff()); for i in r.rev() { print(i, ""); } println(""); for i in 3..0 { print(i, ""); } println(""); }',
+        'fn main() { let m = match "b" { "a" => 1, "b" | "c" => 2, _ => 3 }; let n = match true { true => "t", _ => "f" }; println(m, n); }',
+        'fn main() { let o = ?[1, 2]; println(o.is_some(), o.unwrap_or([9]), o.expect("e").len()); let n: ?int = none; println(n.is_none(), n.unwrap_or(4)); println(n.expect("boom")); }',
+    ]
+
+
+def tour_vm_only():
+    """Trigger statements: the interpreter's executor cannot register triggers (it answers with a fatal error), so
+    these programs are judged on the compiler + VM against the specification only."""
+    return [
+        'import { trigger minute } from triggers;\nevent fn cb(elapsed: int) { println("cb", elapsed); }\nfn main() { trigger cb on minute(5); println("armed"); }',
+        'import { trigger minute } from triggers;\nevent fn cb(elapsed: int) { println("cb", elapsed); }\nevent fn cb2(elapsed: int) { println("cb2"); }\nfn main() { for i in 0..3 { trigger cb on minute(i * 2); } trigger cb2 at minute(7); println("armed"); }',
+    ]
+
+
 def all_families():
     return {
+        "tour": tour(),
         "snapshot": snapshot(),
         "sharing": sharing(),
         "shadowing": shadowing(),
